@@ -140,11 +140,10 @@ Proof. vm_compute. reflexivity. Qed.
 (* ---------- the whole extracted checker on the model's own output *)
 Definition case_good (c : case) : Prop :=
   match c with
-  | CNameC _ | CTr _ _ _ => True
+  | CNameC _ | CTr _ _ _ | CLg _ _ _ => True
   | CUnitC s => has_nul s = false
   | CPred k raw s => pred_model k raw s <> None
   | CMet r d vs keys ops => met_good r d vs keys ops
-  | CLg r d ops => Forall (good_req r d) ops
   end.
 Definition model_obs (c : case) : list tok :=
   match c with
@@ -173,5 +172,5 @@ Proof.
   - destruct (pred_model k raw s) eqn:E; [now apply model_meets_spec_pred | reflexivity].
   - now apply model_meets_spec_met.
   - apply model_meets_spec_tr.
-  - now apply model_meets_spec_lg.
+  - apply model_meets_spec_lg.
 Qed.
